@@ -10,8 +10,8 @@ import (
 )
 
 type SX struct {
-	Atom string
-	List []*SX
+	Atom  string
+	List  []*SX
 	IsStr bool
 }
 
